@@ -44,12 +44,12 @@ func (c01) Gen(r *rand.Rand, tier string, idx int) *core.Plan {
 	p := &core.Plan{World: map[string]int64{}}
 	ns := 2 + r.IntN(3)
 	for i := 0; i < ns; i++ {
-		p.Ops = append(p.Ops, core.Op{Kind: "sign", I: []int64{int64(r.IntN(6)), int64(r.IntN(2)), int64(r.IntN(2)), int64(r.IntN(3)), int64(r.IntN(4) / 3)}})
+		p.Ops = append(p.Ops, core.Op{Kind: "sign", I: []int64{int64(r.IntN(6)), int64(r.IntN(2)), int64(r.IntN(2)), int64(r.IntN(4)), int64(r.IntN(4) / 3)}})
 	}
 	if r.IntN(2) == 0 {
 		// a second signature in the same format for the same kind of artifact, so splices are well-formed
 		f := p.Ops[0].I
-		p.Ops = append(p.Ops, core.Op{Kind: "sign", I: []int64{(f[0]/3)*3 + int64(r.IntN(3)), int64(r.IntN(2)), f[2], int64(r.IntN(3)), 0}})
+		p.Ops = append(p.Ops, core.Op{Kind: "sign", I: []int64{(f[0]/3)*3 + int64(r.IntN(3)), int64(r.IntN(2)), f[2], int64(r.IntN(4)), 0}})
 		ns++
 	}
 	if r.IntN(3) == 0 {
@@ -74,7 +74,7 @@ func (c01) Gen(r *rand.Rand, tier string, idx int) *core.Plan {
 		if r.IntN(3) == 0 {
 			collab = int64(1 + r.IntN(4))
 		}
-		p.Ops = append(p.Ops, core.Op{Kind: "verify", I: []int64{int64(r.IntN(4)), int64(r.IntN(total)), int64(r.IntN(6)), int64(r.IntN(3)), bits, int64(r.IntN(5)), collab, int64(r.IntN(3)), int64(r.IntN(8) / 7)}})
+		p.Ops = append(p.Ops, core.Op{Kind: "verify", I: []int64{int64(r.IntN(4)), int64(r.IntN(total)), int64(r.IntN(6)), int64(r.IntN(3)), bits, int64(r.IntN(9)), collab, int64(r.IntN(3)), int64(r.IntN(8) / 7)}})
 	}
 	return p
 }
@@ -87,8 +87,9 @@ type c01Sig struct {
 	origin   string
 }
 
-var c01Meta = []map[string]string{nil, {"k1": "v1"}, {"k1": "v1", "k2": "v2"}}
-var c01Required = []map[string]string{nil, {"k1": "v1"}, {"k1": "v1", "k2": "v2"}, {"k1": "other"}, {"k3": "v3"}}
+var c01Meta = []map[string]string{nil, {"k1": "v1"}, {"k1": "v1", "k2": "v2"}, {"k1": "v1", "empty": ""}}
+var c01Required = []map[string]string{nil, {"k1": "v1"}, {"k1": "v1", "k2": "v2"}, {"k1": "other"}, {"k3": "v3"},
+	{"empty": ""}, {"k1": "v1", "approved": ""}, {"k1": ""}, {"K1": "v1"}}
 
 func (l c01) Exec(env *core.Env) *core.Result {
 	p := env.Plan
@@ -118,7 +119,7 @@ func (l c01) Exec(env *core.Env) *core.Result {
 			switch op.Kind {
 			case "sign":
 				art, sg, format := int(op.Int(0))%6, signers[op.Int(1)%2], world.Formats[op.Int(2)%2]
-				meta := c01Meta[op.Int(3)%3]
+				meta := c01Meta[op.Int(3)%4]
 				opts := notation.SignerSignOptions{SignatureMediaType: format}
 				if op.Int(4) == 1 {
 					opts.ExpiryDuration = time.Hour
@@ -143,7 +144,7 @@ func (l c01) Exec(env *core.Env) *core.Result {
 					res.Violate("HARNESS/sign", "", "sign: %v", err)
 					return
 				}
-				sigs = append(sigs, c01Sig{bytes: b, format: format, artifact: art, origin: fmt.Sprintf("signed(art=%d,signer=%d,%s,meta=%d)", art, op.Int(1)%2, format[12:], op.Int(3)%3)})
+				sigs = append(sigs, c01Sig{bytes: b, format: format, artifact: art, origin: fmt.Sprintf("signed(art=%d,signer=%d,%s,meta=%d)", art, op.Int(1)%2, format[12:], op.Int(3)%4)})
 			case "roguesign":
 				art, sg, format, variant := int(op.Int(0))%6, signers[op.Int(1)%2], world.Formats[op.Int(2)%2], op.Int(3)%4
 				var d ocispec.Descriptor
@@ -234,7 +235,7 @@ func (l c01) Exec(env *core.Env) *core.Result {
 					art = 3 + art%3
 				}
 				levelName, override, enf := levelFromKnobs(op.Int(3), op.Int(4))
-				required := c01Required[op.Int(5)%5]
+				required := c01Required[op.Int(5)%9]
 				collab := op.Int(6)
 				store := world.NewScriptedStore()
 				store.Put("ca", "s", signers[0].Root().Cert)
@@ -299,7 +300,7 @@ func (l c01) Exec(env *core.Env) *core.Result {
 				if verr == nil {
 					verdict = "accepted"
 				}
-				key := fmt.Sprintf("entry=%d sig=%s presented-for=%d level=%s%v required=%d collab=%d stated=%q envelope-type-swapped=%v", entry, sg.origin, art, levelName, override, op.Int(5)%5, collab, stated, op.Int(8) == 1)
+				key := fmt.Sprintf("entry=%d sig=%s presented-for=%d level=%s%v required=%d collab=%d stated=%q envelope-type-swapped=%v", entry, sg.origin, art, levelName, override, op.Int(5)%9, collab, stated, op.Int(8) == 1)
 				trace = append(trace, map[string]any{"verify": key, "verdict": verdict})
 				sim.Abstract(key + "|" + verdict)
 				_ = enf
